@@ -381,6 +381,81 @@ def block_discipline(sym):
     return True
 
 
+def flag_discipline(sym):
+    """Comparator / AND / ElseIf ._evaluate__: a row and its truth flag belong together.  In every loop over rows, the flag
+       `self._is_false_` is SET in the current iteration before it is USED in that iteration: stored with the row
+       (self.update_cache(...)), read by the duplicate check (self._is_duplicate_output_(...)), or read by the consumer after a
+       plain `yield`.  (The models pair every row with its own flag: EvalPure rows are (binding, flag); IndexedMemo_Facts stores a
+       row with its own flag.)  A must-set dataflow over if / try / with inside each loop body; nested loops are analysed on their
+       own; a branch that ends in continue / return / raise does not flow on."""
+    def is_flag_set(st):
+        return (isinstance(st, ast.Assign) and len(st.targets) == 1 and isinstance(st.targets[0], ast.Attribute)
+                and st.targets[0].attr == '_is_false_' and isinstance(st.targets[0].value, ast.Name) and st.targets[0].value.id == 'self')
+
+    def uses_flag(node):
+        """an expression / simple statement that stores or reads the flag of the current row"""
+        for n in ast.walk(node):
+            if isinstance(n, ast.Call) and isinstance(n.func, ast.Attribute) and n.func.attr in ('update_cache', '_is_duplicate_output_') \
+                    and isinstance(n.func.value, ast.Name) and n.func.value.id == 'self':
+                return n.func.attr
+            if isinstance(n, ast.Yield):
+                return 'yield'
+        return None
+
+    def flow(stmts, state, where, found):
+        """returns the must-set state after the statements, or None when control never falls through"""
+        for st in stmts:
+            if state is None:
+                return None
+            if isinstance(st, (ast.For, ast.While)):
+                found['loops'].append(st)
+                continue                                   # a nested loop is a context of its own
+            if isinstance(st, (ast.Continue, ast.Return, ast.Raise, ast.Break)):
+                if isinstance(st, ast.Return) and st.value is not None and uses_flag(st.value):
+                    need(state, f'{where}: the truth flag is used before it is set in this iteration')
+                return None
+            if is_flag_set(st):
+                state = True
+                continue
+            if isinstance(st, ast.If):
+                u = uses_flag(st.test)
+                need(not u or state, f'{where}: {u} reads the truth flag before it is set in this iteration')
+                a = flow(st.body, state, where, found)
+                b = flow(st.orelse, state, where, found)
+                state = b if a is None else a if b is None else (a and b)
+                continue
+            if isinstance(st, ast.Try):
+                a = flow(st.body, state, where, found)
+                for h in st.handlers:
+                    flow(h.body, state, where, found)
+                flow(st.finalbody, False if a is None else a, where, found)
+                state = a
+                continue
+            if isinstance(st, ast.With):
+                state = flow(st.body, state, where, found)
+                continue
+            u = uses_flag(st)
+            if u:
+                found['uses'] += 1
+                need(state, f'{where}: {u} uses the truth flag before it is set in this iteration')
+        return state
+
+    total = 0
+    for cname in ('Comparator', 'AND', 'ElseIf'):
+        fn = method(find(sym, ast.ClassDef, cname), '_evaluate__')
+        found = {'loops': [], 'uses': 0}
+        flow(fn.body, True, f'{cname}._evaluate__', found)          # outside a loop there is no "current row"
+        seen = 0
+        while seen < len(found['loops']):
+            loop = found['loops'][seen]
+            seen += 1
+            flow(loop.body, False, f'{cname}._evaluate__ (loop at line {loop.lineno})', found)
+        need(seen >= 1, f'{cname}._evaluate__: no loop over rows found')
+        total += found['uses']
+    need(total >= 6, 'flag discipline: fewer uses of the truth flag found than the call sites known to exist')
+    return True
+
+
 def rule_builders(rule):
     """rule.refinement / rule.alternative_or_next: how the new operator is wrapped around the current node and linked into the
     operator above it.  Recognised shapes only; anything else is refused."""
@@ -499,6 +574,7 @@ def emit(d):
     scal = scalar_types(utl)
     mb = mode_bracketing(sym)
     bd = block_discipline(sym)
+    fd = flag_discipline(sym)
     rb = rule_builders(parse(os.path.join(d, 'rule.py')))
     lz = lazy_iteration(parse(os.path.join(d, 'hashed_data.py')))
     o = []
@@ -566,6 +642,9 @@ def emit(d):
         o.append(f"Definition {k} : bool := {'true' if v else 'false'}.")
     o.append("(* symbolic_mode / rule_mode: the mode found on entry is saved first and written back in the finally clause *)")
     o.append(f"Definition block_restores_entry_mode : bool := {'true' if bd else 'false'}.")
+    o.append("(* Comparator / AND / ElseIf ._evaluate__: in every loop over rows the truth flag is set before it is stored with the row,")
+    o.append("   read by the duplicate check, or read by the consumer after a yield *)")
+    o.append(f"Definition row_flag_is_current : bool := {'true' if fd else 'false'}.")
     o.append("")
     o.append("(* rule.refinement / rule.alternative_or_next: how the new operator is linked into the tree (see RuleTree.v) *)")
     o.append("Inductive relink := RelinkNone | RelinkRightOnly | RelinkSide.")
